@@ -23,7 +23,8 @@ RULE = ("slot kinds %s x containers %s with n <= 3 slots x observed {same, one l
         "([*a, 1], {**d, 'k': 1}, DC(*args), DC(**kw), (*a,)) x observed x approved sets; non-trivial = the case holds at least one "
         "unmanaged slot and the session had a pending change in the container; distinct = (container, slots, observed shape, approved set)"
         % (list(KINDS), list(CONTAINERS)))
-ASSUMPTIONS = ["dirty-equals values cannot be exercised (package absent); they share the Unmanaged code path with Is()",
+ASSUMPTIONS = ["positional arguments of dataclass-like constructor calls are outside the enumerated space: the implementation rewrites them to keyword arguments under fix (the repository's own test_dataclass_positional_arguments), so a user-controlled part inside one is removed together with the element that holds it",
+               "dirty-equals values cannot be exercised (package absent); they share the Unmanaged code path with Is()",
                "observed slot values: ints for plain slots, short strings for f-string slots"]
 BATCH = 40
 CATS = ("create", "fix", "trim", "update")
@@ -34,7 +35,7 @@ KEYS = ("a", "b", "c", "d")
 
 
 def bounds(tier):
-    return {"kinds": list(KINDS), "containers": list(CONTAINERS), "max_slots": 3, "star_shapes": len(STAR)}
+    return {"hand_layouts": len(HAND), "kinds": list(KINDS), "containers": list(CONTAINERS), "max_slots": 3, "star_shapes": len(STAR)}
 
 
 def obs_value(i, kind):
@@ -141,6 +142,11 @@ def _cases(tier):
     for arg, ob in DEFAULTS:
         for F in FS:
             cases.append({"dflt": arg, "obs": ob, "F": F})
+    for arg, ob, ok in HAND:
+        for F in FS:
+            cases.append({"hand": arg, "obs": ob, "agree": ok, "F": F})
+            if "update" in F or not F:
+                cases.append({"hand": arg, "obs": ob, "agree": ok, "F": F, "never": True})
     for st, ob in STAR:
         for F in FS:
             cases.append({"star": st, "obs": ob, "F": F})
@@ -189,6 +195,27 @@ REEVAL = [
 ]
 
 
+# hand-written layouts: (argument, observed, user-controlled parts agree with the observed value?)
+# parenthesised user-controlled parts next to an inserted / deleted element, and f-strings compared with str subclasses
+HAND_PRE = ("from enum import Enum\n\n\nclass Name(str):\n    pass\n\n\nclass Col(str, Enum):\n    RED = 'red'\n\n\n")
+HAND = [
+    ("{'a': (Is(1)), 'b': 2}", "{'a': 1}", True), ("{'a': (Is(1))}", "{'a': 1, 'c': 3}", True), ("{'a': (Is(1)), 'b': 2}", "{'a': 1, 'b': 3}", True),
+    ("{'a': (f\"{'s'}0\" f\"x\"), 'b': 2}", "{'a': 's0x', 'c': 3}", True), ("{'z': 0, ('a'): Is(1)}", "{'a': 1}", True),
+    ("{('a'): Is(1), 'b': 2}", "{'c': 0, 'a': 1, 'b': 2}", True), ("{'a': (Is(1)), 'b': (Is(2))}", "{'a': 1, 'x': 5, 'b': 2}", True),
+    ("{'a': (Is(9)), 'b': 2}", "{'a': 1}", False),
+    ("{\n        'a': (\n            f\"{'s'}0\"\n            f\"x\"\n        ),\n        'b': 2,\n    }", "{'a': 's0x'}", True),
+    ("{\n        'a': (\n            f\"{'s'}0\"\n            f\"x\"\n        ),\n    }", "{'a': 's0x', 'b': 2}", True),
+    ("[(Is(1)), 2]", "[1]", True), ("[2, (Is(1))]", "[1]", True), ("[(Is(1))]", "[1, 3]", True), ("[(Is(1))]", "[3, 1]", True), ("[0, (Is(1)), 2]", "[1]", True),
+    ("((Is(1)), 2)", "(1,)", True), ("((Is(1)),)", "(1, 2)", True),
+    ("DC3(a=(Is(1)), b=2)", "DC3(a=1)", True), ("DC3(a=(Is(1)))", "DC3(a=1, b=2)", True),
+    ("{'k': [(Is(1)), 2]}", "{'k': [1], 'j': 0}", True),
+    ("f\"{'r'}ed\"", "Name('red')", True), ("f\"{'r'}ed\"", "Col.RED", True), ("f\"{'x'}ed\"", "Name('red')", False), ("f\"{'x'}ed\"", "Col.RED", False),
+    ("[f\"{'r'}ed\", 1]", "[Col.RED, 2]", True), ("[f\"{'r'}ed\", 1+0]", "[Name('red'), 1]", True), ("{'k': f\"{'r'}ed\", 'j': 1}", "{'k': Name('red')}", True),
+    ("(f\"{'x'}ed\", 1)", "(Name('red'), 2)", False), ("DC3(a=f\"{'r'}ed\", b=1)", "DC3(a=Col.RED, b=2)", True),
+    ("[Is(Name('red')), 1]", "[Name('red'), 2]", True), ("[Is('red'), 1]", "[Col.RED, 2]", True),
+]
+
+
 def _arg(c):
     if "star" in c:
         return c["star"]
@@ -200,6 +227,10 @@ def _site(i, c):
         return "def test_%d():\n    _ok = %s == snapshot(%s)\n" % (i, c["obs"], c["dflt"])
     if "reeval" in c:
         return "def test_%d():\n    for i in (1, 2, 3, 2):\n        %s\n" % (i, c["reeval"].replace("; ", "\n        "))
+    if "hand" in c and c.get("never"):
+        return "def test_%d():\n    s = snapshot(%s)\n" % (i, c["hand"])
+    if "hand" in c:
+        return "def test_%d():\n    assert %s == snapshot(%s)\n" % (i, c["obs"], c["hand"])
     if "star" in c and c.get("never"):
         return "def test_%d():\n    s = snapshot(%s)\n" % (i, c["star"])
     if "star" in c:
@@ -259,6 +290,20 @@ def _analyze(c, i, before, after, rx, ctx):
             return ("unmanaged-text-altered", "%s -> %s" % (btxt, atxt))
         if "fix" in F and "n=2" in c["obs"] and "n=2" not in atxt.replace(" ", ""):
             return ("managed-siblings-not-repaired", "%s -> %s" % (btxt, atxt))
+        return None
+    if "hand" in c:
+        try:
+            sb, sa = _segments(btxt), _segments(atxt)
+        except SyntaxError as e:
+            return ("argument-unparsable", "%r: %s" % (atxt[:200], e))
+        ub = [x for x in sb if x[0] in ("is", "f")]
+        ua = [x for x in sa if x[0] in ("is", "f")]
+        if ub != ua:
+            return ("unmanaged-text-altered", "before %s after %s | %s -> %s" % ([x[1] for x in ub], [x[1] for x in ua], btxt, atxt))
+        if c.get("never") and "+0" not in btxt and atxt.split() != btxt.split() and "(Is(" not in btxt:
+            return ("unmanaged-text-altered", "never compared, nothing pending: %s -> %s" % (btxt, atxt))
+        if c["agree"] and {"create", "fix"} <= F and not c.get("never") and rx is not None:
+            return ("managed-siblings-not-repaired", "re-execution fails: %s | %s -> %s" % (rx, btxt, atxt))
         return None
     if "reeval" in c:
         raised = str(ctx["r"].get("raised") or "")
@@ -330,7 +375,7 @@ def _analyze(c, i, before, after, rx, ctx):
 
 def _judge(cases):
     star = any("star" in c for c in cases)
-    hdr = DC3 + DC5 + (STAR_PRE if star else "")
+    hdr = DC3 + DC5 + HAND_PRE + (STAR_PRE if star else "")
     return batch.one_file(cases, _site, lambda c: ["Is"], cases[0]["F"], _analyze, header=hdr)
 
 
@@ -340,5 +385,5 @@ def run_case(case):
 
 def run_task(task):
     return batch.run_batched(task["cases"], _judge,
-                             label=lambda c: "ok:star" if "star" in c else ("ok:reeval" if "reeval" in c else "ok:defaults" if "dflt" in c else "ok:%s:%s" % (c["c"], c["o"][0])),
+                             label=lambda c: "ok:hand" if "hand" in c else "ok:star" if "star" in c else ("ok:reeval" if "reeval" in c else "ok:defaults" if "dflt" in c else "ok:%s:%s" % (c["c"], c["o"][0])),
                              key=lambda c: repr(sorted(c.items())))
